@@ -20,7 +20,38 @@ func (r *recorder) scanTrace() {
 	text := sp.RenderDoc(v)
 	if r.rnd.Intn(2) == 0 && len(text) > 0 {
 		i := r.rnd.Intn(len(text))
-		switch r.rnd.Intn(8) {
+		switch r.rnd.Intn(10) {
+		case 8, 9:
+			// escape near-misses: one hex digit of a \u escape replaced by a byte that bit tricks mistake for one
+			// (c|0x20 and c&^0x20 images of digits and letters, the neighbours of the digit and letter ranges), or the
+			// character after a backslash with its case bit flipped
+			var cands []int
+			for k := 0; k+1 < len(text); k++ {
+				if text[k] == '\\' {
+					cands = append(cands, k)
+					k++
+				}
+			}
+			if len(cands) > 0 {
+				k := cands[r.rnd.Intn(len(cands))]
+				text = append([]byte{}, text...)
+				if text[k+1] == 'u' && k+5 < len(text) {
+					h := k + 2 + r.rnd.Intn(4)
+					switch r.rnd.Intn(4) {
+					case 0:
+						text[h] ^= 0x20
+					case 1:
+						text[h] &^= 0x20
+					case 2:
+						text[h] ^= 0x40
+					default:
+						near := []byte("gG@`:/")
+						text[h] = near[r.rnd.Intn(len(near))]
+					}
+				} else {
+					text[k+1] ^= 0x20
+				}
+			}
 		case 6, 7:
 			// structural near-misses: a comma before a closing bracket, a doubled comma, a colon for a comma, a dropped colon
 			var cands []int
